@@ -327,20 +327,26 @@ def run(ctx):
     prog, info = world.load()
     ctx.bounds.update({'pool': 'worker ids 0..2, every presence pattern used by the cases; pool_size symbolic for CustomRouting, 1..3 for round robin',
                        'keys': 'two opaque keys with an uninterpreted hash', 'hash': 'CustomHashFunction::hash returns any usize',
-                       'outside': 'histories across dispatch / completion / resize / worker replacement (same-key exclusivity over time, queuer never idling a worker while jobs wait): '
-                                  'only the per-call choice is decided here'})
+                       'worker_books': 'queue of 0..3 jobs over two keys, zero or one job in flight, ops enqueue_job(k) / worker_complete(k) / replace_worker, hand-over succeeding or failing',
+                       'outside': 'the factory-level composition over time (dispatch / completion / resize / replacement interleavings across several workers: same-key exclusivity follows from '
+                                  'the per-call choice + the exact pending-key table, but that composition is argued, not executed); queuer never idling a worker while jobs wait'})
     ctx.assumptions += ['HashMap / VecDeque / Vec contract models; DefaultHasher is an uninterpreted function of the key', 'WorkerProperties are concrete-shape records (available / busy with a key / queued)']
     check_custom(ctx, prog)
     check_round_robin(ctx, prog)
     check_key_persistent(ctx, prog)
     check_queuer(ctx, prog, 'QueuerRouting')
     check_queuer(ctx, prog, 'StickyQueuerRouting')
+    import C14_books
+    C14_books.check(ctx, prog)
 
 
 def replay_file(path):
     import json
     import C14_replay
     d = json.load(open(path))
-    r = C14_replay.replay(d['replay']['which'])
+    if d['replay']['which'] == 'books':
+        r = C14_replay.replay_books(d['replay']['rp'])
+    else:
+        r = C14_replay.replay(d['replay']['which'])
     print(r['detail'])
     return 1 if r['replayed'] else 0
